@@ -134,6 +134,29 @@ def catalogue():
     add("rolling_mean", "rolling", lambda a: a.rolling({_lead(a): 2}).mean(), lambda a: _need_lead(a) and _num(a))
     add("rolling_sum_center", "rolling", lambda a: a.rolling({_lead(a): 2}, center=True, min_periods=1).sum(), lambda a: _need_lead(a) and _num(a))
     add("rolling_max", "rolling", lambda a: a.rolling({_lead(a): 2}, min_periods=1).max(), lambda a: _need_lead(a) and _num(a))
+    add("coarsen_mean", "coarsen", lambda a: a.coarsen({_lead(a): 2}, boundary="trim").mean(), lambda a: _need_lead(a) and _num(a) and a.sizes[_lead(a)] >= 2)
+    add("coarsen_max", "coarsen", lambda a: a.coarsen({_lead(a): 2}, boundary="pad").max(), lambda a: _need_lead(a) and _num(a))
+    # shifting, differencing, padding, ordering, ranking along non-grid dimensions
+    add("shift", "shift", lambda a: a.shift({_lead(a): 1}), lambda a: _need_lead(a) and _float(a))
+    add("roll", "shift", lambda a: a.roll({_lead(a): 1}, roll_coords=False), _need_lead)
+    add("diff", "shift", lambda a: a.diff(_lead(a)), lambda a: _need_lead(a) and _num(a) and a.dtype.kind != "b" and a.sizes[_lead(a)] >= 2)
+    add("pad", "shift", lambda a: a.pad({_lead(a): (1, 1)}, mode="edge"), _need_lead)
+    add("sortby", "shift", lambda a: a.sortby(_lead(a), ascending=False), lambda a: _need_lead(a) and _lead(a) in a.coords)
+    add("quantile", "reduction", lambda a: a.quantile(0.5, dim=_lead(a)), lambda a: _need_lead(a) and _float(a))
+    add("quantile_list", "reduction", lambda a: a.quantile([0.25, 0.75], dim=_lead(a)), lambda a: _need_lead(a) and _float(a) and "quantile" not in a.dims)
+    add("rank", "shift", lambda a: a.rank(_lead(a)), lambda a: False)  # needs bottleneck: not installed
+    add("ffill_numpy", "where", lambda a: a.where(a > 2).fillna(a.mean()), _float)
+    add("idxmax", "reduction", lambda a: a.idxmax(_lead(a)), lambda a: _need_lead(a) and _float(a) and _lead(a) in a.coords and not bool(np.any(np.isnan(np.asarray(a.values, dtype=float)))))
+    add("weighted_mean", "reduction", lambda a: a.weighted(xr.DataArray(np.arange(1, a.sizes[_lead(a)] + 1, dtype=float), dims=[_lead(a)])).mean(_lead(a)), lambda a: _need_lead(a) and _float(a))
+    add("groupby_mean", "reduction", lambda a: a.groupby(xr.DataArray(np.arange(a.sizes[_lead(a)]) % 2, dims=[_lead(a)], name="parity")).mean(), lambda a: _need_lead(a) and _float(a) and "parity" not in a.dims)
+    add("squeeze_after_slice", "indexing", lambda a: a.isel({_lead(a): slice(0, 1)}).squeeze(_lead(a)), _need_lead)
+    add("drop_vars", "assign_coords", lambda a: a.drop_vars(_lead(a)), lambda a: _need_lead(a) and _lead(a) in a.coords)
+    add("reset_coords", "assign_coords", lambda a: a.assign_coords(height=2.0).reset_coords("height", drop=True))
+    add("broadcast_like", "arithmetic", lambda a: a.isel({_lead(a): 0}).broadcast_like(a), _need_lead)
+    add("dot_lead", "reduction", lambda a: a.dot(xr.DataArray(np.ones(a.sizes[_lead(a)]), dims=[_lead(a)])), lambda a: _need_lead(a) and _float(a))
+    add("round", "arithmetic", lambda a: a.round(1), _float)
+    add("np_sqrt_abs", "arithmetic", lambda a: np.sqrt(np.abs(a)), _num)
+    add("interp_lead", "indexing", lambda a: a.interp({"t": float(a["t"].values[0]) + 0.5}), lambda a: "t" in a.dims and "t" in a.coords and _float(a) and a.sizes["t"] >= 2)
     # transposition
     add("T", "transpose", lambda a: a.T)
     add("transpose_rev", "transpose", lambda a: a.transpose(*a.dims[::-1]))
@@ -173,7 +196,7 @@ def own_applicable(name, a):
     if name in ("grid_where_drop", "grid_where_drop_other"):
         return n >= 2 and _num(a) and a.dtype.kind == "f"
     if name == "grid_where_drop_lead_and_values":
-        return n >= 2 and _num(a) and a.dtype.kind == "f" and _need_lead(a)
+        return n >= 2 and _num(a) and a.dtype.kind == "f" and _need_lead(a) and a.sizes[_lead(a)] >= 2
     if name == "grid_isel_with_lead":
         return n >= 2 and _need_lead(a)
     if name == "integrate":
@@ -238,6 +261,8 @@ def apply_own(name, a, other_grid, rng):
         thr = float(np.nanmedian(red)) if np.any(np.isfinite(red)) else 0.0
         if not np.any(red > thr):
             thr = (float(np.nanmin(red)) if np.any(np.isfinite(red)) else 0.0) - 1.0  # equal values everywhere: keep every element
+        if not np.any(red > thr):  # nothing but missing values
+            return a.where(a.notnull() | a.isnull(), drop=True)
         if name == "grid_where_drop_other":
             return a.where(a > thr, -5.0, drop=True)
         return a.where(a > thr, drop=True)
@@ -247,6 +272,8 @@ def apply_own(name, a, other_grid, rng):
         thr = float(np.nanmedian(red)) if np.any(np.isfinite(red)) else 0.0
         if not np.any(red > thr):
             thr = (float(np.nanmin(red)) if np.any(np.isfinite(red)) else 0.0) - 1.0
+        if not np.any(red > thr):  # nothing but missing values: keep every element
+            return a.where(_lead_mask(a), 0, drop=True)
         return a.where(_lead_mask(a) & (a > thr), 0, drop=True)
     if name == "integrate":
         return a.integrate()
